@@ -650,6 +650,65 @@ pub fn scenarios(prop: &str, tier: &str) -> Vec<Cfg> {
                 v.push(c);
             }
         }
+        // ------------------------------------------------------------------------------------ C13
+        "C13" => {
+            let sizes: Vec<usize> = if thorough { vec![1, 2, 31, 32, 33, 61, 62, 63, 96, 130] } else { vec![1, 2, 31, 32, 33, 62, 96] };
+            let d = if thorough { 6 } else { 5 };
+            #[derive(Clone, Copy, PartialEq)]
+            enum Pop {
+                Omega,
+                YieldInf,
+                Ready,
+            }
+            let add = |k: Kind, n: usize, pos: usize, pop: Pop, v: &mut Vec<Cfg>| {
+                let mut c = Cfg::new("C13", k);
+                let (p, vic) = match pop {
+                    Pop::Omega => (s("w"), s("P")),
+                    Pop::YieldInf => (f(Mode::YieldInf), f(Mode::Gate)),
+                    Pop::Ready => (f(Mode::Ready), f(Mode::Gate)),
+                };
+                let mut pre: Vec<ChildSpec> = (0..n).map(|_| p.clone()).collect();
+                pre.insert(pos, vic);
+                c.name = format!("{:?} population {}x{} victim at {}", k, n, match pop { Pop::Omega => "Iω", Pop::YieldInf => "YieldInf", Pop::Ready => "Ready" }, pos);
+                c.prefill = pre;
+                c.dormant = true;
+                c.ops = ops::POLL | ops::UNLEASH | ops::COMPLETE;
+                c.focus = Some(vec![pos as u32]);
+                c.depth = d;
+                c.epilogue = Epilogue::Starve;
+                c.horizon = 100_000;
+                v.push(c);
+            };
+            for &n in &sizes {
+                let mut positions = vec![0usize, 31, 32, 95, 96, n];
+                positions.retain(|&p| p <= n);
+                positions.sort();
+                positions.dedup();
+                for &pos in &positions {
+                    add(Kind::Mu(n + 1), n, pos, Pop::Omega, &mut v);
+                    add(Kind::Mb(n + 1), n, pos, Pop::Omega, &mut v);
+                    for pop in [Pop::YieldInf, Pop::Ready] {
+                        add(Kind::FuNew, n, pos, pop, &mut v);
+                        add(Kind::FubIter(n + 1), n, pos, pop, &mut v);
+                        if n <= 33 {
+                            add(Kind::FuCap(1), n, pos, pop, &mut v);
+                            add(Kind::FoCap(1), n, pos, pop, &mut v);
+                            add(Kind::Fob(n + 1), n, pos, pop, &mut v);
+                        }
+                    }
+                }
+            }
+            // adapters: the population comes from upstream (self-waking futures), the victim is a gate
+            for k in [Kind::Bu(3), Kind::Bo(3), Kind::Tbu(3), Kind::Fec(3), Kind::Bu(2)] {
+                let mut c = adapter_cfg("C13", k, 3, HintShape::Exact, d + 1, 3);
+                c.up_modes = [Mode::YieldInf, Mode::Gate];
+                c.dormant = true;
+                c.ops |= ops::UNLEASH;
+                c.epilogue = Epilogue::Starve;
+                c.horizon = 100_000;
+                v.push(c);
+            }
+        }
         // ------------------------------------------------------------------------------------ C14
         "C14" => {
             let d = if thorough { 7 } else { 5 };
